@@ -188,6 +188,10 @@ static void reseal(std::vector<u8> &b, int how) {
 
 static void to_foreign_endian(std::vector<u8> &b) {
     if (b.size() < ref::HDR) return;
+    // a writer that sealed its header seals the foreign image too; one that wrote no (or a wrong) checksum - releases before
+    // 1.2.0 - leaves the same word there, in its own byte order
+    u32 stored = ref::ld32(&b[ref::OFF_METACRC]);
+    bool sealed = stored == ref::crc_std(b.data(), ref::META) || stored == ref::crc_legacy(b.data(), ref::META);
     auto sw32 = [&](int off) { std::swap(b[off], b[off + 3]); std::swap(b[off + 1], b[off + 2]); };
     sw32(ref::OFF_IDX); sw32(ref::OFF_SIZE); sw32(ref::OFF_BEMETA);
     std::reverse(b.begin() + ref::OFF_ORIGLEN, b.begin() + ref::OFF_ORIGLEN + 8);
@@ -195,7 +199,7 @@ static void to_foreign_endian(std::vector<u8> &b) {
     sw32(ref::OFF_BEVER); sw32(ref::OFF_MAGIC); sw32(ref::OFF_LIBVER);
     // the foreign writer computed its metadata CRC over *its* byte image and stored it in its byte order
     u32 c = ref::crc_std(b.data(), ref::META);
-    ref::st32(&b[ref::OFF_METACRC], ref::bswap32(c));
+    ref::st32(&b[ref::OFF_METACRC], ref::bswap32(sealed ? c : stored));
 }
 
 static int field_off(const std::string &f, int *width) {
@@ -206,6 +210,7 @@ static int field_off(const std::string &f, int *width) {
     if (f == "origlen") { *width = 8; return ref::OFF_ORIGLEN; }
     if (f == "ct") { *width = 1; return ref::OFF_CT; }
     if (f == "chksum0") return ref::OFF_CHKSUM;
+    if (f.size() == 7 && f.compare(0, 6, "chksum") == 0 && f[6] >= '1' && f[6] <= '7') return ref::OFF_CHKSUM + 4 * (f[6] - '0');
     if (f == "mismatch") { *width = 1; return ref::OFF_MISMATCH; }
     if (f == "beid") { *width = 1; return ref::OFF_BEID; }
     if (f == "bever") return ref::OFF_BEVER;
